@@ -1,10 +1,12 @@
 """C09 — the reported critical path is a maximum-weight path of the graph.
 
-Deductive part (thin, see explanation): CPGraph.critical_path validates first and raises on an invalid graph; the path comes
-from nx.dag_longest_path over the CURRENT `weight` attribute on every call (no caching); the event set is taken from ALL
-path nodes; the edge set is reset and rebuilt from consecutive node pairs; makespan bound by telescoping (z3): along a path
-whose edges all satisfy 0 <= w <= ts(dest) - ts(src), the total weight is at most ts(last) - ts(first).
-Optimality itself is the ASSUMED contract of networkx.dag_longest_path.  Bounded: independent longest-path DP on the real
+Deductive part: CPGraph.critical_path is executed by PyVC on every run (try/except, iter()/next() and the `while 1` walk with
+an inductive invariant and a termination measure): it raises exactly on an invalid graph, returns False exactly when
+dag_longest_path fails, and on success stores the path returned by nx.dag_longest_path(self, weight="weight") of THIS call,
+the event set {ev_idx of every path node}, and an edge set that is reset and equals {edge object of every consecutive pair}
+with len(nodes) - 1 elements; makespan bound by telescoping (z3): along a path whose edges all satisfy
+0 <= w <= ts(dest) - ts(src), the total weight is at most ts(last) - ts(first).
+Optimality itself is the ASSUMED contract of networkx.dag_longest_path (simple path of maximum weight over the current attribute).  Bounded: independent longest-path DP on the real
 graphs of generated traces, also after re-weighting edges and recomputing (the what-if workflow).
 """
 from __future__ import annotations
@@ -25,26 +27,147 @@ PROP = "C09"
 
 def structure_vcs() -> List[core.VC]:
     f = extract.get_function(CPA, "CPGraph.critical_path")
-    node = extract.stripped(f)
-    src = ast.unparse(node).replace("'", '"')
-    lines = [l.strip() for l in src.splitlines()]
-    want = ["if not self._validate_graph():", 'self.critical_path_nodes = nx.dag_longest_path(self, weight="weight")',
-            "self.critical_path_events_set = {self.node_list[nid].ev_idx for nid in self.critical_path_nodes}", "self.critical_path_edges_set = set()",
-            "niter = iter(self.critical_path_nodes)", "u = next(niter)", "v = next(niter)", 'e = self.edges[u, v]["object"]', "self.critical_path_edges_set.add(e)", "u = v",
-            "assert len(self.critical_path_edges_set) == len(self.critical_path_nodes) - 1"]
-    pos = [lines.index(w) if w in lines else -1 for w in want]
-    if -1 in pos:
-        raise pyvc.Unsupported("critical_path no longer matches the contract's reading: " + "; ".join(w for w, p in zip(want, pos) if p == -1))
-    vcs = [core.VC(f"{PROP}.critical_path.statement_order", [], z3.BoolVal(pos == sorted(pos)), "vc", [f.fq], {},
-                   note="validate -> longest path over the current weights -> event set of all path nodes -> edge set reset and rebuilt from consecutive pairs")]
+    vcs: List[core.VC] = []
     # no caching of the path between calls: the only assignment to critical_path_nodes is the dag_longest_path call, inside the method
     _, tree = extract.load_module(CPA)
     cached = [n for n in ast.walk(tree) if isinstance(n, ast.FunctionDef) and any(isinstance(d, ast.Name) and d.id in ("cached_property", "lru_cache", "cache") or
                                                                                   (isinstance(d, ast.Call) and isinstance(d.func, ast.Name) and d.func.id in ("lru_cache", "cache"))
                                                                                   for d in n.decorator_list)]
     uses = [n.name for n in cached if any(isinstance(c, ast.Attribute) and c.attr == "dag_longest_path" for c in ast.walk(n))]
+    if uses:
+        raise pyvc.Unsupported(f"a cached function wraps dag_longest_path ({uses}): whether the cache is invalidated by re-weighting is outside this contract")
     vcs.append(core.VC(f"{PROP}.critical_path.recomputed_on_every_call", [], z3.BoolVal(not uses), "vc", [f.fq], {},
                        note=f"no cached function wraps dag_longest_path (cached functions using it: {uses}); the what-if workflow recomputes on re-weighted graphs"))
+    return vcs
+
+
+# ---------------------------------------------------------------------------------------------- critical_path executed symbolically
+
+EV = z3.Function("ev_idx_of_node", z3.IntSort(), z3.IntSort())
+OBJ = z3.Function("edge_object", z3.IntSort(), z3.IntSort(), z3.IntSort())
+OBJ_BEGIN = z3.Function("edge_object_begin", z3.IntSort(), z3.IntSort())
+OBJ_END = z3.Function("edge_object_end", z3.IntSort(), z3.IntSort())
+IS_EDGE = z3.Function("is_edge", z3.IntSort(), z3.IntSort(), z3.BoolSort())
+
+
+class _Static:
+    def __deepcopy__(self, memo):
+        return self
+
+
+class NodeList(_Static):
+    def hv_getitem(self, ex, idx, pc):
+        return pyvc.Record("CPNode", {"ev_idx": EV(pyvc.to_z3(idx))}, frozen=True)
+
+
+class EdgeData(_Static):
+    def __init__(self, u, v):
+        self.u, self.v = u, v
+
+    def hv_getitem(self, ex, idx, pc):
+        if idx != "object":
+            raise pyvc.Unsupported(f"edge attribute {idx!r}")
+        return OBJ(self.u, self.v)
+
+
+class EdgesView(_Static):
+    def hv_getitem(self, ex, idx, pc):
+        if not (isinstance(idx, tuple) and len(idx) == 2):
+            raise pyvc.Unsupported("self.edges[...] with something else than a node pair")
+        u, v = pyvc.to_z3(idx[0]), pyvc.to_z3(idx[1])
+        ex.oblige("edges_lookup_is_an_edge", pc, IS_EDGE(u, v), "self.edges[u, v] raises KeyError unless (u, v) is an edge of the graph")
+        return EdgeData(u, v)
+
+
+def _exists_index(lo, hi, body):
+    i = z3.Int("wi")
+    return z3.Exists([i], z3.And(i >= lo, i < hi, body(i)))
+
+
+def critical_path_exec_vcs(prop: str = PROP) -> List[core.VC]:
+    """CPGraph.critical_path executed by PyVC (try/except, iter/next and the `while 1` walk included), against the assumed
+    contract of networkx.dag_longest_path: a simple path (pairwise distinct nodes, consecutive nodes joined by edges)."""
+    f = extract.get_function(CPA, "CPGraph.critical_path")
+    node = extract.stripped(f)
+    fq = [f.fq]
+    valid, dag, positive = z3.Bools("graph_is_valid graph_is_acyclic some_edge_has_positive_weight")
+    path = pyvc.SymList(z3.IntSort(), "longest_path")
+    n = path.length
+    i, j = z3.Ints("pi pj")
+    calls: List[Any] = []
+
+    @pyvc.intrinsic
+    def dag_longest_path(ex, pc, env, args, kwargs):
+        calls.append((args, kwargs))
+        ok = len(args) == 1 and args[0] is env.get("self") and kwargs == {"weight": "weight"}
+        ex.oblige("longest_path_is_taken_over_the_current_weight_attribute", pc, ok, "nx.dag_longest_path(self, weight=\"weight\")")
+        return pyvc.PathValues([(dag, path), (z3.Not(dag), pyvc.Raises("NetworkXUnfeasible"))])
+
+    def fresh_like(name, old):
+        if name == "self":
+            r = pyvc.Record(old.cls, dict(old.fields))
+            r.fields["critical_path_edges_set"] = pyvc.SymSet(z3.IntSort(), "edges_set_h")
+            return r
+        return pyvc.default_fresh_like(name, old)
+
+    def inv(env):
+        s = env["self"].fields["critical_path_edges_set"]
+        p = env["niter"].pos
+        e = z3.Int("ie")
+        return z3.And(env["niter"].lst.length == n, env["niter"].lst.arr == path.arr, p >= 1, p <= n, pyvc.to_z3(env["u"]) == path.at(p - 1), s.card == p - 1,
+                      z3.ForAll([i], z3.Implies(z3.And(i >= 0, i < p - 1), s.has(OBJ(path.at(i), path.at(i + 1)))), patterns=[OBJ(path.at(i), path.at(i + 1))]),
+                      z3.ForAll([e], z3.Implies(s.has(e), z3.And(OBJ_BEGIN(e) >= 0, OBJ_BEGIN(e) < p - 1, e == OBJ(path.at(OBJ_BEGIN(e)), path.at(OBJ_BEGIN(e) + 1)))), patterns=[s.has(e)]))
+
+    # OBJ_BEGIN(e) doubles as the witness index: the contract facts below tie an edge object to the POSITION of its source
+    # node on the path (path nodes are pairwise distinct, so the position is a function of the node)
+    POS = z3.Function("position_on_path", z3.IntSort(), z3.IntSort())
+    facts = [n >= 1, z3.Implies(positive, n >= 2),
+             z3.ForAll([i], z3.Implies(z3.And(i >= 0, i < n - 1), IS_EDGE(path.at(i), path.at(i + 1))), patterns=[path.at(i + 1)]),
+             z3.ForAll([i], z3.Implies(z3.And(i >= 0, i < n), POS(path.at(i)) == i), patterns=[path.at(i)])]
+    u_, v_ = z3.Ints("eu ev")
+    obj_fact = z3.ForAll([u_, v_], z3.Implies(IS_EDGE(u_, v_), OBJ_BEGIN(OBJ(u_, v_)) == POS(u_)), patterns=[OBJ(u_, v_)])
+
+    ex = pyvc.Exec(consts={"nx": pyvc.Namespace("nx", {"dag_longest_path": dag_longest_path})}, name=f"{prop}.critical_path",
+                   loop_specs={0: pyvc.WhileSpec(["self", "niter", "u"], inv, variant=lambda env: n - env["niter"].pos, fresh_like=fresh_like, name="walk")})
+    ex.intrinsics["set"] = lambda ex_, pc, env, args, kwargs: pyvc.SymSet.empty(z3.IntSort()) if not args else (_ for _ in ()).throw(pyvc.Unsupported("set(<iterable>)"))
+    ex.methods["CPGraph._validate_graph"] = lambda ex_, pc, env, obj, args, kwargs: valid
+    self_ = pyvc.Record("CPGraph", {"node_list": NodeList(), "edges": EdgesView(), "critical_path_nodes": pyvc.SymList(z3.IntSort(), "stale_nodes"),
+                                    "critical_path_events_set": pyvc.SymSet(z3.IntSort(), "stale_events"), "critical_path_edges_set": pyvc.SymSet(z3.IntSort(), "stale_edges")})
+    outs = ex.run_function(node, {"self": self_}, [positive])
+    hyps = facts + [obj_fact] + list(ex.facts)
+    vcs = [core.VC(pv.name, hyps + pv.hyps, pv.goal, "vc", fq, {}, note=pv.note) for pv in ex.vcs]
+    rets = [o for o in outs if o.kind == "ret"]
+    raises = [o for o in outs if o.kind == "raise"]
+    shape = (len(calls) >= 1 and len(raises) == 1 and raises[0].exc == "ValueError" and len(rets) >= 2)
+    vcs.append(core.VC(f"{prop}.critical_path.outcomes", [], z3.BoolVal(shape), "vc", fq, {}, note=f"outcomes: {[(o.kind, o.exc, str(o.value)) for o in outs]}"))
+    for o in raises:
+        vcs.append(core.VC(f"{prop}.critical_path.raises_only_on_invalid_graph", hyps + [pyvc.to_z3(c) for c in o.pc], z3.Not(valid), "vc", fq, {"valid": valid}))
+    k = 0
+    e = z3.Int("qe")
+    kk = z3.Int("qk")
+    for o in rets:
+        pc = hyps + [pyvc.to_z3(c) for c in o.pc]
+        val = o.value
+        if val is False or (z3.is_expr(val) and z3.is_false(val)):
+            vcs.append(core.VC(f"{prop}.critical_path.returns_false_only_when_longest_path_fails", pc, z3.And(valid, z3.Not(dag)), "vc", fq, {}))
+            continue
+        k += 1
+        s = o.env["self"].fields
+        tag = f"{prop}.critical_path.success{k if k > 1 else ''}"
+        nodes, evs, eds = s["critical_path_nodes"], s["critical_path_events_set"], s["critical_path_edges_set"]
+        vcs.append(core.VC(f"{tag}.returns_true_on_valid_dag", pc, z3.And(pyvc.to_z3(val), valid, dag), "vc", fq, {}))
+        vcs.append(core.VC(f"{tag}.nodes_are_the_longest_path", pc, z3.And(nodes.length == n, nodes.arr == path.arr), "vc", fq, {}))
+        vcs.append(core.VC(f"{tag}.every_path_node_event_is_critical", pc + [i >= 0, i < n], evs.has(EV(path.at(i))), "vc", fq, {"i": i, "n": n}))
+        vcs.append(core.VC(f"{tag}.every_critical_event_is_on_the_path", pc + [evs.has(kk)], _exists_index(0, n, lambda w: EV(path.at(w)) == kk), "vc", fq, {"event": kk, "n": n}))
+        vcs.append(core.VC(f"{tag}.every_consecutive_pair_edge_is_critical", pc + [i >= 0, i < n - 1], eds.has(OBJ(path.at(i), path.at(i + 1))), "vc", fq, {"i": i, "n": n}))
+        vcs.append(core.VC(f"{tag}.every_critical_edge_joins_consecutive_path_nodes", pc + [eds.has(e)], _exists_index(0, n - 1, lambda w: e == OBJ(path.at(w), path.at(w + 1))), "vc", fq, {"edge": e, "n": n}))
+        vcs.append(core.VC(f"{tag}.edge_count_is_nodes_minus_one", pc, eds.card == n - 1, "vc", fq, {"n": n, "card": eds.card}))
+    # guards: the success path is reachable; the assumed contract is consistent
+    vcs.append(core.VC(f"{prop}.critical_path.vacuity", hyps + [valid, dag, n == 3], z3.BoolVal(False), "vacuity", fq, {}))
+    for o in rets:
+        if not (o.value is False):
+            vcs.append(core.VC(f"{prop}.critical_path.success_reachable", hyps + [pyvc.to_z3(c) for c in o.pc] + [n == 3], z3.BoolVal(False), "vacuity", fq, {}))
+            break
     return vcs
 
 
@@ -98,7 +221,7 @@ def _case(seed: int) -> Dict[str, Any]:
     with rt.trace_dir({0: evs}) as d:
         try:
             ta = rt.lib(fails, "load", inp, rt.load_analysis, d)
-            g, success = ta.critical_path_analysis(rank=0, annotation="ProfilerStep", instance_id=inst)
+            g, success = rt.lib(fails, "critical_path_analysis", inp, ta.critical_path_analysis, rank=0, annotation="ProfilerStep", instance_id=inst, _allow=(AssertionError,))
         except rt.LibFailure:
             return {"n_checks": 1, "fails": fails, "nontrivial": True}
         except AssertionError:
@@ -135,7 +258,7 @@ def bounded(ctx):
 
 
 def units(ctx):
-    return [core.Unit(f"{PROP}.structure", structure_vcs, [CPA + ".CPGraph.critical_path"]), core.Unit(f"{PROP}.makespan", makespan_vcs, [CPA + ".CPGraph.critical_path"])]
+    return [core.Unit(f"{PROP}.structure", structure_vcs, [CPA + ".CPGraph.critical_path"]), core.Unit(f"{PROP}.critical_path", critical_path_exec_vcs, [CPA + ".CPGraph.critical_path"]), core.Unit(f"{PROP}.makespan", makespan_vcs, [CPA + ".CPGraph.critical_path"])]
 
 
 SPEC = Spec(
@@ -143,7 +266,9 @@ SPEC = Spec(
     functions=[(CPA, "CPGraph.critical_path"), (CPA, "CPGraph._validate_graph")],
     units=units, bounded=[Bounded("path_vs_independent_dp", bounded)],
     trusted=["networkx.dag_longest_path returns a maximum-weight path of a DAG for the current edge attribute `weight` (assumed dependency contract; cross-checked by the bounded stage)",
-             "try/except StopIteration and iter()/next() are outside the PyVC subset: the walk over the path is matched statement by statement"],
-    explanation="The optimality clause is a contract of the dependency (assumed); what is proved is only the telescoping makespan step and, by statement correspondence, the order of "
-                "validate / compute / rebuild and the absence of caching. Everything else is bounded: the real path is compared with an independent DP, also after re-weighting.",
+             "edge objects: edges[u, v]['object'].begin == u (C08.add_edge_helper.endpoints_and_type) is used as a fact here, so distinct path positions give distinct edge objects",
+             "exceptions other than the explicit raise / StopIteration of next() / NetworkXUnfeasible of dag_longest_path / KeyError of self.edges[u, v] are not modelled inside the try blocks"],
+    explanation="The optimality clause is a contract of the dependency (assumed). Proved for all graphs: what critical_path does with that path (node list, event set, edge set, "
+                "reset between calls, termination of the walk, outcomes on invalid / cyclic graphs) and the telescoping makespan step. Bounded: the real path is compared with an "
+                "independent DP, also after re-weighting.",
 )
